@@ -42,15 +42,18 @@ RULE = ("generated source trees with cross links among recipes / directories / r
 
 
 def suites(tier: str, seed: int) -> List[Suite]:
-    site = SC.site_suite()
+    site, hist = SC.site_suite(), SC.history_suite()
     if tier == "replay":
-        return [site]
+        return [site, hist]
     if tier == "quick":
         plan = [("valid", "small", 10), ("valid", "medium", 30), ("valid", "deep", 10)]
     else:
         plan = [("valid", "small", 400), ("valid", "medium", 1200), ("valid", "deep", 400)]
     site.cases = SC.gen_site_cases("C14", seed, plan)
-    return [site]
+    # several generations in one process (edits, a larger max_servings and then a smaller one again): the link checker
+    # runs on every generation - nothing of an earlier build may be linked from a later one
+    hist.cases = SC.gen_links_history_cases(seed, 6 if tier == "quick" else 100)
+    return [site, hist]
 
 
 def replay(inp: Any) -> Case:
